@@ -54,10 +54,40 @@ func checkC02(tier, replay string) int {
 	}
 	var jobs []job
 	archs := refsem.Archs() // all four architectures in both tiers (32-bit ABIs must not treat operands differently)
+	single := vs
+	if tier == "thorough" {
+		// thorough: additionally every operand with one or two bits set, every complement of a single bit, and every
+		// combination of six boundary half-words in the two halves
+		seen := map[uint64]bool{}
+		single = nil
+		add := func(v uint64) {
+			if !seen[v] {
+				seen[v] = true
+				single = append(single, v)
+			}
+		}
+		for _, v := range vs {
+			add(v)
+		}
+		for i := 0; i < 64; i++ {
+			add(1 << i)
+			add(^(uint64(1) << i))
+			for k := i + 1; k < 64; k++ {
+				add(1<<i | 1<<k)
+			}
+		}
+		halves := []uint64{0, 1, 0x3b, 0x7fffffff, 0x80000000, 0xffffffff}
+		for _, h := range halves {
+			for _, l := range halves {
+				add(h<<32 | l)
+			}
+		}
+		ctx.Cov["single_condition_operands"] = len(single)
+	}
 	for _, a := range archs {
 		for _, op := range allOps {
 			for arg := uint32(0); arg < 6; arg++ {
-				for _, v := range vs {
+				for _, v := range single {
 					jobs = append(jobs, job{a, op, arg, v})
 				}
 			}
@@ -120,7 +150,7 @@ func checkC02(tier, replay string) int {
 }
 
 func c02Finish(ctx *evid.Ctx, r *compileRun) int {
-	r.finish("8 operations x 6 argument positions x operand alphabet V64 (values at every 32-bit boundary, single bits, half patterns) x every cell of the exact partition of the actual argument's two words (below/equal/above each operand half, every mask sign vector) x every other word the program loads, under both byte orders of seccomp_data, on all four architectures; plus all literal (operand, actual) pairs of V64 x V64 and all pairs of operations on one argument; non-trivial = program yields >= 2 distinct decisions")
+	r.finish("8 operations x 6 argument positions x operand alphabet V64 (values at every 32-bit boundary, single bits, half patterns; thorough tier: plus every operand with one or two bits set, every complement of a single bit and all 36 combinations of six boundary half-words) x every cell of the exact partition of the actual argument's two words (below/equal/above each operand half, every mask sign vector) x every other word the program loads, under both byte orders of seccomp_data, on all four architectures; plus all literal (operand, actual) pairs of V64 x V64 and all pairs of operations on one argument; non-trivial = program yields >= 2 distinct decisions")
 	ctx.Assumptions = []string{"Go uint64 arithmetic is the reference relation", "the byte-order hook VerifSetByteOrder only replaces the package variable nativeEndian"}
 	return ctx.Finish()
 }
